@@ -445,7 +445,24 @@ func (m *Machine) globalObj(g *ssa.Global) *Obj {
 // BytesInit is returned by GlobalInit for `[]byte("...")` initialisers.
 type BytesInit struct{ S string }
 
+// GlobalObj returns the memory cell of a package-level variable.
+func (m *Machine) GlobalObj(g *ssa.Global) *Obj { return m.globalObj(g) }
+
 func (m *Machine) materialiseInit(name string, v Val) Val {
+	switch a := v.(type) {
+	case Arr:
+		n := Arr{E: make([]Val, len(a.E))}
+		for i, e := range a.E {
+			n.E[i] = m.materialiseInit(fmt.Sprintf("%s[%d]", name, i), e)
+		}
+		return n
+	case Struct:
+		n := Struct{F: make([]Val, len(a.F))}
+		for i, e := range a.F {
+			n.F[i] = m.materialiseInit(fmt.Sprintf("%s.%d", name, i), e)
+		}
+		return n
+	}
 	if b, ok := v.(BytesInit); ok {
 		elems := make([]Val, len(b.S))
 		for i := range elems {
